@@ -270,7 +270,7 @@ func runC16(c *rt.Ctx) {
 		for _, a := range f.alphabet {
 			prefixes = append(prefixes, []byte(a), []byte(a+a), []byte("#"+a))
 		}
-		for _, n := range []int{4095, 4096, 4097, 70000} { // long existing content (a log buffer, a page)
+		for _, n := range []int{64, 100, 200, 255, 256, 257, 300, 400, 512, 700, 1000, 1024, 1500, 2048, 3000, 4095, 4096, 4097, 70000} { // existing content of every size class (a line, a log buffer, a page)
 			prefixes = append(prefixes, []byte(strings.Repeat(f.alphabet[0], n/len(f.alphabet[0])+1)[:n]))
 		}
 		rg := rt.NewRand(c.Seed, "C16/prefix/"+f.name, 0)
